@@ -45,6 +45,7 @@ def expected_values(rec):
 def replay_values(rec) -> dict:
     """Every evaluation path of C01 on one DAG.  -> dict(mismatches=[...], n=...)"""
     pool = POOL
+    nd = dict(number_of_draws=pool.ndraws) if pool.draws else {}
     mism = []
     n = 0
     root = rec['root']
@@ -58,14 +59,14 @@ def replay_values(rec) -> dict:
         if any(w is None or abs(w) > 1e60 for w in want):
             continue      # undefined or overflowing: outside the property's domain
         got = {}
-        got['get_value_c'] = np.asarray(shared.get_value_c(database=DB, betas=betas, prepare_ids=True), dtype=float)
-        got['get_value_c(tree)'] = np.asarray(tree.get_value_c(database=DB, betas=betas, prepare_ids=True), dtype=float)
+        got['get_value_c'] = np.asarray(shared.get_value_c(database=DB, betas=betas, prepare_ids=True, **nd), dtype=float)
+        got['get_value_c(tree)'] = np.asarray(tree.get_value_c(database=DB, betas=betas, prepare_ids=True, **nd), dtype=float)
         fo = shared.get_value_and_derivatives(
-            betas=betas, database=DB, gradient=False, hessian=False, bhhh=False, aggregation=False, prepare_ids=True
+            betas=betas, database=DB, gradient=False, hessian=False, bhhh=False, aggregation=False, prepare_ids=True, **nd
         )
         got['get_value_and_derivatives.functions'] = np.asarray(fo.functions, dtype=float)
         agg = shared.get_value_and_derivatives(
-            betas=betas, database=DB, gradient=False, hessian=False, bhhh=False, aggregation=True, prepare_ids=True
+            betas=betas, database=DB, gradient=False, hessian=False, bhhh=False, aggregation=True, prepare_ids=True, **nd
         )
         n += 4
         for path, arr in got.items():
@@ -124,6 +125,7 @@ def _huge(*arrays, limit=1e60) -> bool:
 def replay_derivatives(rec) -> dict:
     """C02 on one differentiable DAG."""
     pool = POOL
+    nd = dict(number_of_draws=pool.ndraws) if pool.draws else {}
     mism = []
     n = 0
     if not rec['diff']:
@@ -151,7 +153,7 @@ def replay_derivatives(rec) -> dict:
         bh = np.einsum('ri,rj->rij', g, g)
         # disaggregate
         d = e.get_value_and_derivatives(betas=betas, database=DB, gradient=True, hessian=True, bhhh=True,
-                                        aggregation=False, prepare_ids=True)
+                                        aggregation=False, prepare_ids=True, **nd)
         n += 1
         _cmp_vec(mism, 'disaggregate', p, 'functions', d.functions, f)
         _cmp_vec(mism, 'disaggregate', p, 'gradients', d.gradients, g)
@@ -160,7 +162,7 @@ def replay_derivatives(rec) -> dict:
         # aggregate, every legal flag combination
         for (wg, wh, wb) in [(True, True, True), (True, False, False), (True, True, False), (True, False, True)]:
             a = e.get_value_and_derivatives(betas=betas, database=DB, gradient=wg, hessian=wh, bhhh=wb,
-                                            aggregation=True, prepare_ids=True)
+                                            aggregation=True, prepare_ids=True, **nd)
             n += 1
             path = f'aggregate(g={wg},h={wh},b={wb})'
             _cmp_vec(mism, path, p, 'function', [a.function], [f.sum()])
@@ -176,7 +178,7 @@ def replay_derivatives(rec) -> dict:
                 _cmp_vec(mism, path, p, 'bhhh', a.bhhh, bh.sum(axis=0))
         # named results: keyed by the right names
         na = e.get_value_and_derivatives(betas=betas, database=DB, gradient=True, hessian=True, bhhh=True,
-                                         aggregation=True, prepare_ids=True, named_results=True)
+                                         aggregation=True, prepare_ids=True, named_results=True, **nd)
         n += 1
         gs = g.sum(axis=0)
         hs = h.sum(axis=0)
@@ -204,6 +206,7 @@ def replay_biogeme_derivatives(rec) -> dict:
     from . import boundary
 
     pool = POOL
+    nd = dict(number_of_draws=pool.ndraws) if pool.draws else {}
     mism = []
     n = 0
     if not rec['diff'] or not rec['freeocc']:
@@ -219,7 +222,7 @@ def replay_biogeme_derivatives(rec) -> dict:
     e = Builder(pool, rec['ops'], share=True).build(root)
     boundary.install()
     boundary.reset()
-    b = bio.BIOGEME(DB, e)
+    b = bio.BIOGEME(DB, e, **nd)
     b.generate_html = False
     b.generate_pickle = False
     b.save_iterations = False
@@ -227,12 +230,12 @@ def replay_biogeme_derivatives(rec) -> dict:
         mism.append(dict(path='BIOGEME.free_beta_names', got=list(b.free_beta_names), want=names))
         return dict(mismatches=mism, n=1)
     e2 = Builder(pool, rec['ops'], share=True).build(root)
-    fn = e2.create_function(database=DB, gradient=True, hessian=True, bhhh=True)
+    fn = e2.create_function(database=DB, gradient=True, hessian=True, bhhh=True, **nd)
     # the expression is prepared again (it becomes the formula of an estimation object) AFTER the function was
     # created: the function must follow the expression's current numbering
-    b_again = bio.BIOGEME(DB, e2)
+    b_again = bio.BIOGEME(DB, e2, **nd)
     e3 = Builder(pool, rec['ops'], share=True).build(root)
-    obj = e3.create_objective_function(database=DB)
+    obj = e3.create_objective_function(database=DB, **nd)
     kept = []   # outputs kept while later evaluations are made: they must not change afterwards
     for p in range(pool.npoints):
         if any(vals[r][p] is None or jets[r][p] is None for r in rows):
